@@ -11,6 +11,7 @@ mod gen;
 mod sched;
 mod suites_body;
 mod suites_chunk;
+mod suites_env;
 mod suites_fs;
 mod suites_neg;
 mod suites_sched;
@@ -81,16 +82,23 @@ fn main() {
         "C09" => {
             suites_chunk::c09(&mut em, thorough, seed);
             suites_sched::run_small_for_c09(&mut em, thorough);
+            if shard0 {
+                suites_env::many_live_gzip_writers(&mut em);
+            }
         }
         "C10" => {
             suites_sched::run_suite(&mut em, thorough, seed, false, false);
             suites_sched::run_gz_suite(&mut em, thorough);
             suites_sched::free_running(&mut em, thorough);
             suites_sched::inline_waker(&mut em);
+            if shard0 {
+                suites_env::idle_runtime_producer(&mut em);
+            }
         }
         "C11" => {
             if shard0 {
                 suites_chunk::c11(&mut em, thorough, seed);
+                suites_env::body_dropped_in_current_thread_runtime(&mut em);
             }
             suites_sched::run_suite(&mut em, thorough, seed, true, false);
             suites_sched::run_suite(&mut em, false, seed, true, true);
@@ -98,8 +106,12 @@ fn main() {
         "C12" => {
             suites_body::c12_serve(&mut em, thorough, seed);
             suites_chunk::c12_chunk(&mut em, thorough, seed);
+            suites_env::hint_race(&mut em, if thorough { 200_000 } else { 30_000 });
         }
-        "C13" => suites_serve::c13(&mut em, thorough, seed),
+        "C13" => {
+            suites_serve::c13(&mut em, thorough, seed);
+            suites_fs::file_outside_runtime(&mut em);
+        }
         "C14" => {
             suites_serve::c14(&mut em, thorough, seed);
             suites_serve::c14_clock_crossing(&mut em);
@@ -109,7 +121,10 @@ fn main() {
             suites_neg::c17(&mut em, false, seed);
         }
         "C16" => suites_neg::c16(&mut em, thorough, seed),
-        "C17" => suites_neg::c17(&mut em, thorough, seed),
+        "C17" => {
+            suites_neg::c17(&mut em, thorough, seed);
+            suites_env::many_live_gzip_writers(&mut em);
+        }
         "C18" => suites_fs::c18(&mut em, thorough, seed),
         "C19" => suites_fs::c19(&mut em, thorough, seed),
         "C20" => {
